@@ -21,6 +21,9 @@ type c06Case struct {
 	// VM, when set, selects a translation-stack scenario instead of a memory chain.
 	VM   *simx.VMCfg `json:"vm,omitempty"`
 	XOps []simx.XOp  `json:"xops,omitempty"`
+	// Net, when set, selects a mesh-network scenario.
+	Net  *simx.NetCfg  `json:"net,omitempty"`
+	Msgs []simx.NetMsg `json:"msgs,omitempty"`
 	// Cut selects one cut (index into the distinct event times); -1 = all.
 	Cut int `json:"cut"`
 }
@@ -35,6 +38,32 @@ type c06Scn struct {
 }
 
 func (cs c06Case) build() c06Scn {
+	if cs.Net != nil {
+		cfg := *cs.Net
+		cfg.Full = true
+		nt := simx.BuildMesh(cfg, append([]simx.NetMsg{}, cs.Msgs...))
+		return c06Scn{env: nt.Env, start: nt.Start, verify: func(tag string) []lib.Problem {
+			var probs []lib.Problem
+			// exactly-once delivery at the addressed device
+			want := map[int]int{}
+			for _, m := range cs.Msgs {
+				want[m.To]++
+			}
+			for i, d := range nt.Devices {
+				seen := map[uint64]bool{}
+				for _, r := range d.State.Received {
+					if seen[r.ID] {
+						probs = append(probs, lib.Problem{Key: "message-delivered-twice", What: fmt.Sprintf("device %d received message %d twice", i, r.ID)})
+					}
+					seen[r.ID] = true
+				}
+				if len(d.State.Received) != want[i] {
+					probs = append(probs, lib.Problem{Key: "message-count-wrong", What: fmt.Sprintf("device %d received %d messages, %d were addressed to it", i, len(d.State.Received), want[i])})
+				}
+			}
+			return probs
+		}}
+	}
 	if cs.VM != nil {
 		cfg := *cs.VM
 		cfg.Full = true
@@ -65,6 +94,9 @@ func (cs c06Case) build() c06Scn {
 }
 
 func (cs c06Case) label() (sig, name, script string) {
+	if cs.Net != nil {
+		return fmt.Sprintf("mesh%dx%d", cs.Net.Width, cs.Net.Height), cs.Net.Name(), fmt.Sprintf("%v", cs.Msgs)
+	}
 	if cs.VM != nil {
 		l2 := ""
 		if cs.VM.L2 {
@@ -122,6 +154,9 @@ func runC06(cs c06Case) (string, []lib.Problem) {
 			fam := "memory-chain"
 			if cs.VM != nil {
 				fam = "translation-stack"
+			}
+			if cs.Net != nil {
+				fam = "mesh-network"
 			}
 			k = "checkpoint:" + key + ":" + mode + ":" + fam // one root cause per (mode, scenario family)
 		}
@@ -320,8 +355,62 @@ func enumC06VM(c *lib.Ctx, yield func(c06Case) bool) bool {
 	return true
 }
 
+// enumC06Net yields the mesh-network cases: every set of k messages over
+// ordered device pairs and sizes {0, 100 bytes} (multi-flit), all sent at once.
+func enumC06Net(c *lib.Ctx, yield func(c06Case) bool) bool {
+	cfgs := []simx.NetCfg{
+		{Width: 2, Height: 1, Flit: 16, PortBuf: 2},
+		{Width: 2, Height: 2, Flit: 64, PortBuf: 1, Stall: 6},
+	}
+	if c.Thorough() {
+		cfgs = append(cfgs, simx.NetCfg{Width: 3, Height: 1, Flit: 8, PortBuf: 2, Stall: 4})
+	}
+	k := lib.Pick(c, 2, 3)
+	for ci := range cfgs {
+		cfg := cfgs[ci]
+		num := cfg.Width * cfg.Height
+		var opts []simx.NetMsg
+		for f := 0; f < num && f < 3; f++ {
+			for t := 0; t < num && t < 3; t++ {
+				if f == t {
+					continue
+				}
+				for _, b := range []int{0, 100} {
+					opts = append(opts, simx.NetMsg{From: f, To: t, Bytes: b})
+				}
+			}
+		}
+		idx := make([]int, k)
+		for {
+			msgs := make([]simx.NetMsg, k)
+			for i, a := range idx {
+				msgs[i] = opts[a]
+			}
+			if !yield(c06Case{Net: &cfg, Msgs: msgs, Cut: -1}) {
+				return false
+			}
+			p := k - 1
+			for p >= 0 {
+				idx[p]++
+				if idx[p] < len(opts) {
+					break
+				}
+				idx[p] = 0
+				p--
+			}
+			if p < 0 {
+				break
+			}
+		}
+	}
+	return true
+}
+
 func enumC06(c *lib.Ctx, yield func(c06Case) bool) {
 	if !enumC06VM(c, yield) {
+		return
+	}
+	if !enumC06Net(c, yield) {
 		return
 	}
 	lines := simx.SameSetLines(3)
@@ -351,7 +440,7 @@ func init() {
 	lib.Register(&lib.Check{
 		ID:    "C06",
 		Level: "fault_enumeration",
-		Rule: "crash-point style enumeration: for each assembly of the checkpoint catalogue (translation stacks TLB -> [L2 TLB] -> MMU with every burst of 4 (thorough 5) translations over 3 pages that saturates the TLB lookup pipeline; ideal / banked / DRAM memory, write-back, three write-through policies, ROB, two-level, interleaved; inside a real simulation.Simulation with tracing off) x every 2-operation script (quick: 7-operation alphabet over 2 lines on 5 assemblies; thorough: 21-operation alphabet over 3 lines, more assemblies and geometries and all DRAM presets), the uninterrupted run is recorded; then for EVERY distinct event time t: RunUntil(t), SaveCheckpoint, rebuild the identical simulation, LoadCheckpoint, Run — in two modes (fresh process state: ID generator and tracing side tables reset; same process: kept). " +
+		Rule: "crash-point style enumeration: for each assembly of the checkpoint catalogue (mesh networks 2x1 / 2x2 (thorough 3x1) with every sequence of 2 (thorough 3) messages over device pairs x {0, 100 bytes}; translation stacks TLB -> [L2 TLB] -> MMU with every burst of 4 (thorough 5) translations over 3 pages that saturates the TLB lookup pipeline; ideal / banked / DRAM memory, write-back, three write-through policies, ROB, two-level, interleaved; inside a real simulation.Simulation with tracing off) x every 2-operation script (quick: 7-operation alphabet over 2 lines on 5 assemblies; thorough: 21-operation alphabet over 3 lines, more assemblies and geometries and all DRAM presets), the uninterrupted run is recorded; then for EVERY distinct event time t: RunUntil(t), SaveCheckpoint, rebuild the identical simulation, LoadCheckpoint, Run — in two modes (fresh process state: ID generator and tracing side tables reset; same process: kept). " +
 			"Oracle: the handled-event suffix after t and the final SaveCheckpoint bytes of every entity (components, ports, connection, storages, engine, ID generator) equal the uninterrupted run's; the resumed run satisfies the flat-memory oracle. A case = (assembly, script); restores_explored counts (cut, mode) pairs.",
 		Sharded:     true,
 		MinOutcomes: 5,
